@@ -26,7 +26,8 @@ EXCS = ("SerialException", "PortNotOpenError", "SerialTimeoutException", "OSErro
         "RuntimeError", "OSError_EAGAIN",
         "InterruptedError", "BrokenPipeError")
 PRIM_PROFILE = Profile(write_exc=EXCS, read_exc=EXCS, latency=(0, 1, 24, 25, 26),
-                       content=("bare", "nocomma", "echo", "commapay", "spacepay", "tabpay", "wrong",
+                       content=("bare", "nocomma", "echo", "commapay", "spacepay", "tabpay", "bangpay",
+                                "okpay", "errpay", "banner", "wrong",
                                 "shifted", "err", "nameerr", "sibling", "cut", "longerr", "jsonish",
                                 "lonebrace"),
                        silent=True,
@@ -37,7 +38,7 @@ METH_PROFILE = Profile(write_exc=("SerialException", "OSError"),
                        read_exc=("SerialException", "PortNotOpenError", "OSError"),
                        latency=(0, 1, 25, 26),
                        content=("wrong", "shifted", "err", "nameerr", "sibling", "cut", "longerr",
-                                "jsonish", "lonebrace"),
+                                "jsonish", "lonebrace", "banner"),
                        silent=True, read_window=2)
 # reboot()/bootload() write to the port themselves and contain the pyserial exception family
 # only; pyserial wraps OS-level failures of write() into SerialException, so a bare OSError is
@@ -59,7 +60,7 @@ REQUESTS = ["V", "v", "R", "QG", "QM", "S2,0,4", "C,1,2", "SM,10,1,1", "  SM,10,
 assert [len(r.strip()) for r in REQUESTS[-4:]] == [63, 64, 65, 128]
 EXEMPT = ("rb", "r", "bl")              # I/O exceptions deliberately ignored (board leaves the bus)
 FAILING_CONTENT = ("wrong", "shifted", "err", "nameerr", "sibling", "cut", "longerr", "jsonish",
-                   "lonebrace")
+                   "lonebrace", "banner")
 
 
 def ref_name(request):
